@@ -132,6 +132,10 @@ class Ctx:
 
 
 def load_findings(prop: str) -> list[dict[str, Any]]:
+    """Known findings of one property: known_findings/<prop>.json (source), aggregated into known_findings.json."""
+    p = VERIF / "known_findings" / f"{prop}.json"
+    if p.exists():
+        return [f for f in json.loads(p.read_text()).get("findings", []) if f.get("property") == prop]
     p = VERIF / "known_findings.json"
     if not p.exists():
         return []
